@@ -214,13 +214,60 @@ impl Format for WmoGroup {
 
 // ------------------------------------------------------------------ ADT
 
+/// Sub-structure map of the MH2O chunk (from the chunk description in /repo/docs): 256 headers
+/// {offset_instances, layer_count, offset_attributes}, 24-byte instances {liquid_type u16, lvf u16, min f32,
+/// max f32, x_offset u8, y_offset u8, width u8, height u8, offset_exists_bitmap u32, offset_vertex_data u32};
+/// offsets relative to the chunk payload.  The dwords of every used header and of every instance become
+/// (trailing, `extra_sites`) sites; the rectangle dword carries the byte-granular classes.
+fn mh2o_sites(s: &mut Seed) {
+    let Some(c) = s.chunks.iter().find(|c| c.parent.is_none() && c.magic == "O2HM").cloned() else { return };
+    let (p, size) = (c.off + 8, c.total - 8);
+    if size < 256 * 12 {
+        return;
+    }
+    let mut extra = vec![];
+    for ci in 0..256usize {
+        let h = p + 12 * ci;
+        let (ofs, n, attr) = (rd32(&s.bytes, h) as usize, rd32(&s.bytes, h + 4) as usize, rd32(&s.bytes, h + 8) as usize);
+        if n == 0 && attr == 0 {
+            continue;
+        }
+        for (k, f) in ["offset_instances", "layer_count", "offset_attributes"].iter().enumerate() {
+            extra.push(Site { off: h + 4 * k, name: format!("O2HM[0].header[{ci}].{f}"), enc: None, header: false });
+        }
+        if n == 0 || n > 8 || ofs + 24 * n > size {
+            continue;
+        }
+        for l in 0..n {
+            let i = p + ofs + 24 * l;
+            for (o, f) in [(0usize, "liquid_type+lvf"), (12, "rect(x,y,w,h)"), (16, "offset_exists_bitmap"), (20, "offset_vertex_data")] {
+                extra.push(Site { off: i + o, name: format!("O2HM[0].entry[{ci}].instance[{l}].{f}"), enc: None, header: false });
+            }
+        }
+    }
+    // a position that is already a site (head of the chunk payload) stays where it is
+    extra.retain(|e| !s.sites.iter().any(|x| x.off == e.off) || e.name.ends_with(".rect(x,y,w,h)"));
+    s.extra_sites = extra.len();
+    s.sites.extend(extra);
+}
+
 pub struct Adt;
 impl Format for Adt {
     fn name(&self) -> &'static str {
         "adt"
     }
     fn seeds(&self) -> Vec<Seed> {
-        crate::seeds_adt::seeds().iter().map(|r| auto_seed(r, "adt", &[("KNCM", 128)], 64, 32, 64)).collect()
+        crate::seeds_adt::seeds()
+            .iter()
+            .map(|r| {
+                let mut s = auto_seed(r, "adt", &[("KNCM", 128)], 64, 32, 64);
+                mh2o_sites(&mut s);
+                s
+            })
+            .collect()
+    }
+    fn rect_sites(&self, seed: &Seed) -> Vec<usize> {
+        (0..seed.sites.len()).filter(|&k| seed.sites[k].name.ends_with(".rect(x,y,w,h)")).collect()
     }
     fn run(&self, _seed: &Seed, input: &[u8], rec: &mut Recorder, _scratch: &Path) {
         use wow_adt::{discover_chunks, parse_adt, parse_adt_with_metadata};
